@@ -283,6 +283,39 @@ def run_check(tier, seed):
                 pt = check_conv(run, name, mk(), t)
             run.count(('conv', name, g_tm(t)), nontrivial=pt is not None)
 
+    # ---- traversal combinators on nested binders that share a suggested name (or clash with a free variable):
+    #      the inner body mentions the outer bound variable and contains something to rewrite
+    def nested_same_name():
+        names = r.choice([('x', 'x'), ('x', 'x', 'x'), ('x', 'y', 'x'), ('p', 'p'), ('x', 'x1'), ('x1', 'x')])
+        d = len(names)
+        leaves = [Bound(i) for i in range(d)] + [Var('x', B), Var('q', B)]
+
+        def form(k):
+            c = r.random()
+            if k == 0 or c < 0.25:
+                return r.choice(leaves)
+            if c < 0.5:
+                return Not(Not(form(k - 1)))
+            if c < 0.75:
+                return Comb(Comb(Const('conj', TFun(B, B, B)), form(k - 1)), form(k - 1))
+            return Comb(Const('neg', TFun(B, B)), form(k - 1))
+        conj = Const('conj', TFun(B, B, B))
+        neg = Const('neg', TFun(B, B))
+        # the outer bound variable occurs, next to a redex for double_neg / conj_comm
+        body = Comb(Comb(conj, Comb(neg, Comb(neg, Bound(0)))), Bound(d - 1)) if r.random() < 0.5 else \
+            Comb(Comb(conj, form(2)), Comb(neg, Comb(neg, Bound(r.randrange(d)))))
+        t = body
+        for nm in reversed(names):
+            t = Abs(nm, B, t)
+        return t
+    sweepers = [(n_, mk) for n_, mk in insts if n_.split('(')[0] in ('top_conv', 'bottom_conv', 'top_sweep_conv', 'abs_conv', 'repeat', 'sub_conv', 'nnf_conv')
+                and 'g =' not in n_ and 'beta' not in n_ and 'eta' not in n_]
+    for i in range(20 * scale):
+        t = nested_same_name()
+        for name, mk in sweepers:
+            pt = check_conv(run, name, mk(), t)
+            run.count(('conv-nested', name, g_tm(t)), nontrivial=pt is not None)
+
     # ================= (3) arithmetic normalisers ===============================
     for thy, T, mod, mk in (('nat', N, dnat, lambda: dnat.norm_full()), ('int', I, dint, lambda: dint.int_norm_conv()),
                             ('real', R, dreal, lambda: dreal.real_norm_conv())):
@@ -315,7 +348,7 @@ def run_check(tier, seed):
     run.sample(dict(conj='(B & A) & (A & B)', normal_form='A & B'))
     run.cov['rule'] = ('conjunctions / disjunctions of 1-5 members from 12 atoms (variables, applications, negation, equality, quantified, alpha '
                        'variants), random nesting, permuted with duplicates; 18 conversion instances on random well-typed terms (with double '
-                       'negations planted), top_conv rewriting to an abstraction under a supplied condition; polynomials over x y z and numerals '
+                       'negations planted), the traversal combinators on nested binders sharing a suggested name, top_conv rewriting to an abstraction under a supplied condition; polynomials over x y z and numerals '
                        'of depth 1-3 at nat / int / real with 2-8 commutativity / associativity / distribution steps; one third: two random '
                        'parenthesisations and orders of a product of 2-6 atoms over five variables')
     run.assumptions = ['abs_conv / top_conv / rewr_conv and the arithmetic normalisers are explored on generated inputs, not modelled',
